@@ -296,7 +296,7 @@ public:
     }
     virtual int close() override {
         if (m_finish) return 0;
-        if (write(nullptr, 0) == 0) {
+        if (write_chunk(nullptr, 0) == 0) {
             m_finish = true;
             return 0;
         }
@@ -304,6 +304,11 @@ public:
     }
 
     virtual ssize_t write(const void *buf, size_t count) override {
+        // a zero-length chunk is the last-chunk: only close() sends it
+        return count ? write_chunk(buf, count) : 0;
+    }
+
+    ssize_t write_chunk(const void *buf, size_t count) {
         char chunk_size[20];
         auto size = snprintf(chunk_size, sizeof(chunk_size), "%zx\r\n", count);
         if (size <= 0) return -1;
@@ -316,6 +321,7 @@ public:
     virtual ssize_t writev(const struct iovec *iov, int iovcnt) override {
         char chunk_size[20];
         ssize_t count = iovector_view((struct iovec*)iov, iovcnt).sum();
+        if (count == 0) return 0;
         auto size = snprintf(chunk_size, sizeof(chunk_size), "%zx\r\n", (size_t)count);
         if (m_stream->write(chunk_size, size) != size) return -1;
         if (m_stream->writev(iov, iovcnt) != count) return -1;
